@@ -259,6 +259,10 @@ func probeAll(h *hand) {
 			}
 		}
 	}
+	for i := range gs.Players {
+		h.seatForced("seatante", i)
+		h.seatForced("seatblinds", i)
+	}
 	h.o.Count("engine.probed_states")
 }
 
@@ -303,6 +307,9 @@ func playHand(o *Out, r *Rng, cfgLine string, probeP, viewP, hopP, malP float64)
 		}
 		if r.Chance(viewP) {
 			h.views()
+		}
+		if r.Chance(0.04) {
+			h.noise(r.Intn(4))
 		}
 		if r.Chance(hopP) {
 			switch {
@@ -361,6 +368,56 @@ func runEngine(dir string, seed uint64, n int) {
 		}
 		o.Count("engine.malformed_cfg")
 	}
+	// C14 "shuffling only reorders the deck - the same cards, each once", for all deck contents: decks the model has no
+	// cards for (suits in lower case, a double pack told apart by the case of the suit, a deck of arbitrary tokens).
+	// Start() only; judged by the monitor alone (the line is a no-op for the model).
+	for i := 0; i < 12; i++ {
+		var deck []string
+		base := pokerface.NewStandardDeckCards()
+		switch i % 3 {
+		case 0:
+			for _, c := range base {
+				deck = append(deck, strings.ToLower(c[:1])+c[1:])
+			}
+		case 1:
+			for _, c := range base {
+				deck = append(deck, c, strings.ToLower(c[:1])+c[1:])
+			}
+		default:
+			for k := range base {
+				deck = append(deck, fmt.Sprintf("card-%d ", k))
+			}
+		}
+		r.Shuffle(len(deck), func(a, b int) { deck[a], deck[b] = deck[b], deck[a] })
+		opts := pokerface.NewStardardGameOptions()
+		opts.Deck = append([]string{}, deck...)
+		for j := 0; j < 3; j++ {
+			pos := []string{}
+			if j == 0 {
+				pos = []string{"dealer"}
+			} else if j == 1 {
+				pos = []string{"sb"}
+			} else {
+				pos = []string{"bb"}
+			}
+			opts.Players = append(opts.Players, &pokerface.PlayerSetting{Bankroll: 1000, Positions: pos})
+		}
+		o.BeginHistory()
+		var after []string
+		err, pan := safely(func() error {
+			g := pokerface.NewPokerFace().NewGame(opts)
+			if e := g.Start(); e != nil {
+				return e
+			}
+			after = g.GetState().Meta.Deck
+			return nil
+		})
+		o.Emit(fmt.Sprintf("noise deckprobe %d", i%3), "ok")
+		o.Count("engine.deck_probes")
+		if !pan && err == nil && !sameCards(deck, after) {
+			o.Violate("C14", "shuffle_perm", fmt.Sprintf("deck after Start() is not a permutation of the configured deck (variant %d): configured %v, after Start %v", i%3, deck[:6], after))
+		}
+	}
 	o.Close(dir, "engine", seed)
 }
 
@@ -372,10 +429,15 @@ func replayLines(o *Out, lines []string) {
 		case len(l) >= 3 && l[:3] == "cfg":
 			h = startHand(o, l, true)
 		case h == nil:
+		case strings.HasPrefix(l, "op seatante ") || strings.HasPrefix(l, "op seatblinds "):
+			f := strings.Fields(l)
+			h.seatForced(f[1], int(atoi(f[2])))
 		case len(l) >= 2 && l[:2] == "op":
 			h.exec(parseOpLine(l))
 		case len(l) >= 5 && l[:5] == "view ":
 			h.view(l[5:])
+		case strings.HasPrefix(l, "noise "):
+			h.noise(int(atoi(l[6:])))
 		case l == "hop" || strings.HasPrefix(l, "hop "):
 			h.hop(strings.TrimSpace(l[3:]))
 		}
